@@ -1,6 +1,7 @@
 import CE.Cbe.Encode
 import CE.Cbe.Decode
 import CE.Canon
+import CE.Arr.LE
 import CE.Tree
 import CE.Io.Reader
 import CE.Api.Dispatch
@@ -220,8 +221,27 @@ def treeEq (args : List String) : String :=
     | _, _ => "BADINPUT"
   | _ => "BADINPUT"
 
+def parseNats (s : String) : Option (List Nat) :=
+  if s == "-" then some [] else (s.splitOn ",").mapM String.toNat?
+
+def natsText (l : List Nat) : String := if l.isEmpty then "-" else String.intercalate "," (l.map toString)
+
+def arrToLE (args : List String) : String :=
+  match args with
+  | [w, xs] => match w.toNat?, parseNats xs with
+    | some w, some l => Hex.encode (Arr.toLE w l)
+    | _, _ => "BADINPUT"
+  | _ => "BADINPUT"
+
+def arrFromLE (args : List String) : String :=
+  match args with
+  | [w, h] => match w.toNat?, Hex.decode h with
+    | some w, some bs => natsText (Arr.fromLE w bs)
+    | _, _ => "BADINPUT"
+  | _ => "BADINPUT"
+
 def ops : List (String × (List String → String)) :=
-  [("CBE.ENC", cbeEnc), ("CBE.DEC", cbeDec), ("CANON.EQ", canonEq), ("RULES", rulesOp), ("WF.REL", wfRel), ("FWD.EQ", fwdEq), ("MEASURE", measureOp), ("CBE.MINLEN", minLenOp), ("API.DETECT", apiDetect), ("API.VERSION", apiVersion), ("READER.ALL", readerAll), ("READER.FAULT", readerFault), ("TREE.EQ", treeEq)]
+  [("CBE.ENC", cbeEnc), ("CBE.DEC", cbeDec), ("CANON.EQ", canonEq), ("RULES", rulesOp), ("WF.REL", wfRel), ("FWD.EQ", fwdEq), ("MEASURE", measureOp), ("CBE.MINLEN", minLenOp), ("API.DETECT", apiDetect), ("API.VERSION", apiVersion), ("READER.ALL", readerAll), ("READER.FAULT", readerFault), ("TREE.EQ", treeEq), ("ARR.TOLE", arrToLE), ("ARR.FROMLE", arrFromLE)]
 
 def splitArrow : List String → List String × String
   | [] => ([], "")
